@@ -126,8 +126,12 @@ def oracle(ctx, docs):
             if esc:
                 w = well_formed(out)
                 if w:
-                    # math/raw sinks are C02's; here only structure
-                    ctx.fail("html-" + w.split(" ")[0], "escaped HTML is not a well-formed fragment (%s) for %r under %s" % (w, d, c["name"]), dict(rep, output=out[:500]))
+                    # the unescaped text of block_error (known finding of C02) also breaks well-formedness: attribute the failure to it
+                    # only if the output is well-formed once the error blocks' own content is taken out
+                    sig = "html-" + w.split(" ")[0]
+                    if 'class="error"' in out and well_formed(re.sub(r'(<div class="error"><pre>).*?(</pre></div>\n)', r"\1\2", out, flags=re.S)) is None:
+                        sig += ":inside-block_error"
+                    ctx.fail(sig, "escaped HTML is not a well-formed fragment (%s) for %r under %s" % (w, d, c["name"]), dict(rep, output=out[:500]))
                     continue
             lv = []
             leaves(toks, lv)
@@ -188,6 +192,22 @@ def oracle(ctx, docs):
     return n
 
 
+def replay_known(ctx):
+    for k in ctx.known:
+        ex = k.get("example") or {}
+        if "doc" not in ex:
+            continue
+        out = configs.make(ex["config"])(ex["doc"])
+        w = well_formed(out)
+        if w:
+            sig = "html-" + w.split(" ")[0]
+            if 'class="error"' in out and well_formed(re.sub(r'(<div class="error"><pre>).*?(</pre></div>\n)', r"\1\2", out, flags=re.S)) is None:
+                sig += ":inside-block_error"
+            ctx.fail(sig, "stored example of a known finding: %s for %r" % (w, ex["doc"]), {"config": ex["config"], "doc": ex["doc"], "output": out[:300]})
+        else:
+            ctx.notes.append("a stored known-finding example no longer fails: %r" % ex["doc"])
+
+
 def focused(rng):
     """constructs whose rendering does string surgery or bookkeeping: footnote items, repeated images, task lists, tables"""
     w = lambda: rng.choice(gen.WORDS + ["map", "top", "a/", "p", "help"])
@@ -208,6 +228,7 @@ def focused(rng):
 
 def run(ctx):
     ctx.broken += common.proof_stage(ctx, THEOREMS)
+    replay_known(ctx)
     docs = [gen.md_any(ctx.rng, 8) if ctx.rng.random() < 0.8 else focused(ctx.rng) for _ in range(1800 if ctx.quick() else 30000)]
     sweep = gen.slot_sweep()
     ctx.rng.shuffle(sweep)
